@@ -317,6 +317,41 @@ def concretize_bv(e, bits, signed):
     return e
 
 
+def is_arith(v):
+    return isinstance(v, z3.ArithRef)
+
+
+def toarith(v, signed=False):
+    if isinstance(v, z3.ArithRef):
+        return v
+    if isinstance(v, bool):
+        raise Unsupported("bool in arithmetic")
+    if isinstance(v, int):
+        return z3.IntVal(v)
+    if isinstance(v, float):
+        n, d = v.as_integer_ratio()
+        return z3.RealVal(n) / z3.RealVal(d) if d != 1 else z3.RealVal(n)
+    if isinstance(v, z3.BitVecRef):
+        return z3.BV2Int(v, signed)
+    raise Unsupported("toarith %r" % type(v))
+
+
+def wrap_int(e, bits, signed):
+    m = 1 << bits
+    if signed:
+        h = 1 << (bits - 1)
+        return ((e + h) % m) - h
+    return e % m
+
+
+def conc_arith(e, bits=None, signed=False):
+    if isinstance(e, z3.ArithRef):
+        e = z3.simplify(e)
+        if z3.is_int_value(e):
+            return e.as_long()
+    return e
+
+
 def b_and(a, b):
     if a is False or b is False:
         return False
@@ -505,8 +540,13 @@ class Engine:
 
     def global_ptr(self, st, name):
         key = "g:" + name
-        if key not in st.heap:
+        if key not in st.heap or "init_failed" in st.world:
             g = self.ir.globals[name]
+            if not st.lenient:
+                for p, why in st.world.get("init_failed", ()):
+                    if g.get("pkg") == p:
+                        raise Unsupported("global %s of package whose init could not be executed: %s" % (name, why))
+        if key not in st.heap:
             emb = self.ir.embeds.get(name)
             st.heap[key] = emb if emb is not None else self.zero(g["t"])
             self.objtype[key] = g["t"]
@@ -542,6 +582,9 @@ class Engine:
             return int(v) & ((1 << sort_bits) - 1)
         if kind == "bool":
             e = z3.Bool(full)
+        elif self.arith == "int" and kind != "forcebv":
+            e = z3.Int(full)
+            st.assume(z3.And(e >= 0, e < (1 << sort_bits)))
         else:
             e = z3.BitVec(full, sort_bits)
         st.syms = st.syms + ((full, e, kind if kind == "bool" else sort_bits),)
@@ -779,6 +822,14 @@ class Engine:
             if ta is bool and type(b) is bool and a == b:
                 return a
             return z3.If(g, tobool(a), tobool(b))
+        if is_arith(a) or is_arith(b):
+            if isinstance(a, (bool, z3.BoolRef)) or isinstance(b, (bool, z3.BoolRef)):
+                raise MergeFail("arith vs bool")
+            xa, xb = toarith(a), toarith(b)
+            if xa.is_int() != xb.is_int():
+                xa = z3.ToReal(xa) if xa.is_int() else xa
+                xb = z3.ToReal(xb) if xb.is_int() else xb
+            return z3.If(g, xa, xb)
         if ta is int or isinstance(a, z3.BitVecRef):
             if not (type(b) is int or isinstance(b, z3.BitVecRef)):
                 raise MergeFail("int vs other")
@@ -1046,6 +1097,7 @@ class Engine:
         fr.i += 1
 
     allow_go = False
+    arith = "bv"
     vector = None
     params = {}
     dump_smt2 = False
@@ -1068,6 +1120,11 @@ class Engine:
             else:
                 out[name] = "0x%x" % v.as_long()
         return out
+
+    def tobv_any(self, v, bits):
+        if is_arith(v):
+            return z3.Int2BV(v, bits)
+        return tobv(v, bits)
 
     # ------------------------------------------------------------------ simple ops
     def op_move(self, st, fr, ins):
@@ -1110,15 +1167,22 @@ class Engine:
                 raise GoPanic("index out of range [%d] with length %d (%s)" % (idx, n, what))
             return idx
         s = z3.simplify(idx)
-        if z3.is_bv_value(s):
+        if z3.is_bv_value(s) or z3.is_int_value(s):
             return self.concrete_index(st, s.as_long(), n, what)
         alts = []
-        bits = idx.size()
-        for k in range(n):
-            c = idx == z3.BitVecVal(k, bits)
-            if self.feasible(st, c):
-                alts.append((c, None, k))
-        oob = z3.UGE(idx, z3.BitVecVal(n, bits))
+        if is_arith(idx):
+            for k in range(n):
+                c = idx == k
+                if self.feasible(st, c):
+                    alts.append((c, None, k))
+            oob = z3.Or(idx >= n, idx < 0)
+        else:
+            bits = idx.size()
+            for k in range(n):
+                c = idx == z3.BitVecVal(k, bits)
+                if self.feasible(st, c):
+                    alts.append((c, None, k))
+            oob = z3.UGE(idx, z3.BitVecVal(n, bits))
         alts2 = []
         if self.feasible(st, oob):
             def pan(s):
@@ -1378,6 +1442,23 @@ class Engine:
         raise Unsupported("binop on %s" % cls)
 
     def float_binop(self, op, x, y, bits):
+        if is_arith(x) or is_arith(y):
+            # "real mode": floats are exact rationals (see DESIGN: float-exactness lemma); only used in integer mode
+            self.stats["real_mode_float_ops"] = self.stats.get("real_mode_float_ops", 0) + 1
+            fx, fy = toarith(x), toarith(y)
+            if fx.is_int():
+                fx = z3.ToReal(fx)
+            if fy.is_int():
+                fy = z3.ToReal(fy)
+            if op == "+":
+                return fx + fy
+            if op == "-":
+                return fx - fy
+            if op == "*":
+                return fx * fy
+            if op == "/":
+                return fx / fy
+            return simp({"<": fx < fy, "<=": fx <= fy, ">": fx > fy, ">=": fx >= fy}[op])
         if not is_sym(x) and not is_sym(y):
             if op == "+":
                 return x + y
@@ -1412,7 +1493,55 @@ class Engine:
             return z3.fpGEQ(fx, fy)
         raise Unsupported("float op " + op)
 
+    def int_binop_arith(self, st, op, x, y, bits, signed, yt=None):
+        if op in ("<<", ">>"):
+            if is_sym(y):
+                y = conc_arith(y)
+                if is_sym(y):
+                    raise Unsupported("shift by symbolic count in integer mode")
+            xe = toarith(x, signed)
+            if op == "<<":
+                return conc_arith(wrap_int(xe * (1 << y), bits, signed)) if y < bits else 0
+            if signed:
+                raise Unsupported("signed >> in integer mode")
+            return conc_arith(xe / (1 << y)) if y < bits else 0
+        xs = False
+        xe, ye = toarith(x, signed), toarith(y, signed)
+        if op == "+":
+            r = xe + ye
+            if signed:
+                return conc_arith(wrap_int(r, bits, True))
+            return conc_arith(z3.If(r >= (1 << bits), r - (1 << bits), r))
+        if op == "-":
+            r = xe - ye
+            if signed:
+                return conc_arith(wrap_int(r, bits, True))
+            return conc_arith(z3.If(r < 0, r + (1 << bits), r))
+        if op == "*":
+            return conc_arith(wrap_int(xe * ye, bits, signed))
+        if op in ("/", "%"):
+            if signed:
+                raise Unsupported("signed division in integer mode")
+            zero = ye == 0
+            if self.feasible(st, zero):
+                def pan(s):
+                    raise GoPanic("integer divide by zero (symbolic)")
+                if self.feasible(st, z3.Not(zero)):
+                    raise Fork([(zero, pan), (z3.Not(zero), lambda s: None)])
+                raise GoPanic("integer divide by zero")
+            return conc_arith(xe / ye if op == "/" else xe % ye)
+        if op == "&" and not is_sym(y) and y >= 0 and (y + 1) & y == 0 and not signed:
+            return conc_arith(xe % (y + 1))
+        if op == "&" and not is_sym(x) and x >= 0 and (x + 1) & x == 0 and not signed:
+            return conc_arith(ye % (x + 1))
+        if op in ("<", "<=", ">", ">="):
+            r = {"<": xe < ye, "<=": xe <= ye, ">": xe > ye, ">=": xe >= ye}[op]
+            return simp(r)
+        raise Unsupported("int op %s in integer mode" % op)
+
     def int_binop(self, st, op, x, y, bits, signed, yt=None):
+        if is_arith(x) or is_arith(y):
+            return self.int_binop_arith(st, op, x, y, bits, signed, yt)
         sx, sy = is_sym(x), is_sym(y)
         if op in ("<<", ">>"):
             yi = self.ir.intinfo(yt)
@@ -1543,6 +1672,8 @@ class Engine:
             if cls == "int":
                 if not is_sym(x) and not is_sym(y):
                     return x == y
+                if is_arith(x) or is_arith(y):
+                    return simp(toarith(x, u["signed"]) == toarith(y, u["signed"]))
                 return simp(tobv(x, u["bits"]) == tobv(y, u["bits"]))
             if cls == "bool":
                 if not is_sym(x) and not is_sym(y):
@@ -1553,6 +1684,8 @@ class Engine:
             if cls == "float":
                 if not is_sym(x) and not is_sym(y):
                     return x == y
+                if is_arith(x) or is_arith(y):
+                    return simp(toarith(x) == toarith(y))
                 srt = z3.Float64()
                 return z3.fpEQ(x if is_sym(x) else z3.FPVal(x, srt), y if is_sym(y) else z3.FPVal(y, srt))
             if cls in ("unsafeptr", "nil"):
@@ -1696,7 +1829,9 @@ class Engine:
             fr.locals[ins["r"]] = b_not(x)
         elif op == "-":
             info = self.ir.intinfo(ins["t"])
-            if info is None:
+            if is_arith(x):
+                fr.locals[ins["r"]] = conc_arith(wrap_int(-x, *info)) if info else -x
+            elif info is None:
                 fr.locals[ins["r"]] = -x if not is_sym(x) else z3.fpNeg(x)
             elif is_sym(x):
                 fr.locals[ins["r"]] = concretize_bv(-x, *info)
@@ -1727,6 +1862,10 @@ class Engine:
             rb, rs = ri
             if not is_sym(x):
                 return norm(x, rb, rs)
+            if is_arith(x):
+                if (not xs and not rs and rb >= xb) or (xs and rs and rb >= xb) or (not xs and rs and rb > xb):
+                    return x
+                return conc_arith(wrap_int(x, rb, rs))
             if rb == xb:
                 return x
             if rb < xb:
@@ -1738,6 +1877,8 @@ class Engine:
             if xc == "int" and rc == "float":
                 if not is_sym(x):
                     return float(x)
+                if is_arith(x):
+                    return z3.ToReal(x)
                 srt = z3.Float64() if ru["bits"] == 64 else z3.Float32()
                 return z3.fpSignedToFP(z3.RNE(), x, srt) if xi[1] else z3.fpUnsignedToFP(z3.RNE(), x, srt)
             if xc == "float" and rc == "int":
@@ -1983,6 +2124,10 @@ class Engine:
                 if not is_sym(r) and not is_sym(a):
                     r = min(r, a) if name == "min" else max(r, a)
                 else:
+                    if is_arith(r) or is_arith(a):
+                        ra, aa = toarith(r), toarith(a)
+                        r = z3.If(ra < aa, ra, aa) if name == "min" else z3.If(ra < aa, aa, ra)
+                        continue
                     if info is None:
                         raise Unsupported("min/max on non-int symbolic")
                     bits, signed = info
@@ -2036,7 +2181,12 @@ class Engine:
             del self.results[nres:]
             oks = [r for r in new if r[0] == "returned"]
             if len(oks) != 1 or len(new) != 1:
-                raise RuntimeError("init of %s did not complete on exactly one path: %s" % (p, [(k, i) for k, i, _ in new]))
+                # the initialiser could not be executed completely: its globals become unusable (never silently zero)
+                st = new[0][2]
+                st.frames = st.frames[:base]
+                st.pc = ()
+                st.world["init_failed"] = st.world.get("init_failed", ()) + ((p, str([(k, i) for k, i, _ in new])[:300]),)
+                continue
             st = oks[0][2]
             st.frames = st.frames[:base]
         st.lenient = False
